@@ -14,7 +14,7 @@ CHECKS = {
               "padding, face_edge[f,j] joins corners j,j+1, padding exactly where there is no corner, n_nodes_per_face). The model is "
               "tied to the code by a differential run on generated meshes (identical outputs up to edge numbering), and the same Lean "
               "predicate is evaluated on the implementation's own output. handshake / handshake_closed: the (face, slot) incidences summed over the derived edges equal the sum of n_nodes_per_face, and 2*n_edge = that sum when every edge bounds two face slots. "
-              spec_unique: any output meeting Spec equals the model's up to the numbering of the edges (justifies the canonicalised comparison). "
+              "spec_unique: any output meeting Spec equals the model's up to the numbering of the edges (justifies the canonicalised comparison). "
               "Euler's formula itself (topology of the sphere) is tested on generated sphere tilings only."),
         note=_TB + "Modelled, not verified: NumPy's np.unique/argmax/searchsorted/reshape semantics, xarray storage; Euler count.",
         technique="Lean 4 theorem over a hand model + differential correspondence with Lean-evaluated spec",
